@@ -262,6 +262,7 @@ pub fn op_name(o: &Op) -> &'static str {
         Op::JoinPoll => "join_poll",
         Op::JoinSpawn => "join_spawn",
         Op::JoinCollect => "join_collect",
+        Op::JoinRotate => "join_rotate",
         Op::Clone { .. } => "clone",
         Op::Downgrade { .. } => "downgrade",
         Op::Upgrade { .. } => "upgrade",
